@@ -293,8 +293,12 @@ def run(ctx, replay=None):
     ov_virtual = _overlay(ctx, "virtual", {PKG: FILES}, replace=rep)
     ov_real = _overlay(ctx, "real", {PKG: FILES})          # no source replaced: real clock
     ov_mm = _overlay(ctx, "marshaler", {".": ["vf_marshaler_verif_test.go"], PKG: [SHIM]}, replace=rep)
+    ov_store = _store_overlay(ctx, rep)
     if replay:
         rp = json.load(open(replay))
+        if rp.get("family") == "rdvstore":
+            _store_layer(ctx, ov_store)
+            return _finish(ctx)
         return _replay(ctx, rp, ov_virtual, ov_mm)
 
     off_sub = [(0, 0), (0, 1), (599, 999999999), (600, 0)]
@@ -398,7 +402,7 @@ def run(ctx, replay=None):
     # real-time twins and the pure-function trace are handled while TLC validates the replays
     with ThreadPoolExecutor(max_workers=3) as side:
         rt = side.submit(lambda: _realtime(ctx, ov_real, scripts, blocks, 16 if quick else 32))
-        mm = side.submit(lambda: _marshaler(ctx, ov_mm, scripts, 350 if quick else 4000))
+        mm = side.submit(lambda: (_marshaler(ctx, ov_mm, scripts, 350 if quick else 4000), _store_layer(ctx, ov_store)))
         pu = side.submit(lambda: _pure_validate(ctx, pure_ev))
         # the first configuration alone fixes the matching predicate, the others then try it first
         results = [vjobs[0]()] + _par(vjobs[1:])
@@ -464,6 +468,56 @@ def _pure(ctx, ov, n):
 
 
 DRV_MM = "^TestVerifMarshalerReplay$"
+DRV_STORE = "^TestVerifRdvStore$"
+
+
+def _store_overlay(ctx, rep):
+    """overlay for the store-layer part (built before any thread starts): rewritten pkg/rendezvous + orbitdb.go
+    reading the virtual clock in storeForGroup; None if the clock read is not where it used to be"""
+    src = open(os.path.join(vf.REPO, "orbitdb.go")).read()
+    new, n = re.subn(r"RegisterRotation\(time\.Now\(\),", "RegisterRotation(rendezvous.VfClockNow(),", src)
+    if n == 0:
+        ctx.drift.append({"trace": "rdvstore", "info": "orbitdb.go: no RegisterRotation(time.Now(), ...) found; store-layer part skipped"})
+        return None
+    d = ctx.sub("rdvstore_src")
+    dst = os.path.join(d, "orbitdb.go")
+    open(dst, "w").write(new)
+    rep2 = dict(rep)
+    rep2["orbitdb.go"] = dst
+    return _overlay(ctx, "rdvstore", {".": ["vf_rdvstore_verif_test.go", "vf_replica_verif_test.go"], PKG: [SHIM]}, replace=rep2)
+
+
+def _store_layer(ctx, ov):
+    """C17 where the topics are registered by WeshOrbitDB.storeForGroup (orbitdb.go): two orbit-db instances open the
+    same group at scripted instants of the virtual clock; MonRdvStore.tla judges what each resolves and accepts."""
+    if ov is None:
+        return
+    quick = ctx.tier == "quick"
+    scripts = []
+
+    def S(isec, off, steps):
+        scripts.append({"id": len(scripts), "cfg": {"isec": isec, "off": off},
+                        "steps": [{"act": a, "d": d, "x": x} for (a, d, x) in steps]})
+    for isec in ([3600] if quick else [3600, 600, 86400]):
+        for off in ([0, isec - 1] if quick else [0, 1, isec // 2, isec - 1]):
+            # both open in the same period; one / two boundaries pass; late opener; idle periods; reopen by a third instance
+            S(isec, off, [("open", "p1", 0), ("open", "p2", 0), ("tick", "-", isec), ("tick", "-", isec)])
+            S(isec, off, [("open", "p1", 0), ("tick", "-", isec), ("open", "p2", 0), ("tick", "-", 1), ("tick", "-", isec)])
+            S(isec, off, [("open", "p1", 0), ("tick", "-", 3 * isec), ("open", "p2", 0), ("tick", "-", isec - 1), ("tick", "-", 2)])
+            if not quick:
+                S(isec, off, [("open", "p1", 0), ("tick", "-", isec // 2), ("open", "p2", 0), ("tick", "-", isec // 2), ("open", "p3", 0), ("tick", "-", 2 * isec)])
+    events, _ = vf.run_driver(ctx, ".", DRV_STORE, ov, scripts, "rdvstore", timeout=1500)
+    acc, rejects = vf.validate_blocks(ctx, ("MonRdvStore", "Mon_RdvStore.cfg"), events, "rdvstore")
+    n = sum(1 for e in events if e.get("ev") in ("sresolve", "sexchange"))
+    ctx.evaluations += n
+    ctx.distinct_nontrivial += len(scripts)
+    ctx.extra["store_layer"] = {"scripts": len(scripts), "observations": n}
+    for rj in rejects:
+        line = rj["info"].get("line", {})
+        sc = scripts[rj["id"]]
+        ctx.violation("store layer breaks C17 (interval %ss, start %ss into the period, history %s): %s" % (
+            sc["cfg"]["isec"], sc["cfg"]["off"], " ; ".join("%s %s %s" % (x["act"], x["d"], x["x"]) for x in sc["steps"]),
+            json.dumps(line, sort_keys=True)[:300]), {"script": sc, "rejected_line": line, "family": "rdvstore"})
 
 
 def _marshaler(ctx, ov, scripts, n):
